@@ -44,6 +44,8 @@ def run_family(R, tier, rng, kinds):
             if len(a) > 5 and rng.random() < .8: continue
             A = np.array(a); n = len(a)
             k = rng.randint(1, 3); ss = [rng.randrange(0, n) for _ in range(k)]; ee = [rng.randint(s + 1, n) for s in ss]
+            if rng.random() < .4:        # empty windows (stop == start anywhere in 0..n, stop < start) next to a non-empty one
+                ss += [rng.randrange(0, n + 1), n]; ee += [ss[-2], rng.randrange(0, n + 1)]
             def win(): return RunLengthArray.from_array(A)[np.array(ss):np.array(ee)].to_array().tolist()
             cases.append(("rle_windows " + show(a) + " " + show(ss) + " " + show(ee), [guarded(win), [a[s:e] for s, e in zip(ss, ee)]], "windows", nt(a)))
             m = [rng.random() < .5 for _ in a]
